@@ -1520,9 +1520,41 @@ def strip_sym(s):
             s = s[1]
         elif s[0] == "capture":
             s = s[2]
+        elif s[0] == "field" and len(s) >= 3 and isinstance(s[2], str) and s[2].isdigit() and isinstance(s[1], tuple) and s[1] and s[1][0] == "downcast":
+            # the payload of a variant of a value that is known to be built as enum literals (`match helper() { Some(i) => .. }`
+            # with the helper spliced in): the payload of the one literal of that variant
+            v = _variant_payload(s)
+            if v is None:
+                break
+            s = v
         else:
             break
     return s
+
+
+def _variant_payload(s):
+    inner = s[1]
+    variant = inner[2] if len(inner) > 2 else None
+    y = inner[1]
+    for _ in range(4):
+        if isinstance(y, tuple) and y and y[0] in ("ref", "deref"):
+            y = y[1]
+    if not (isinstance(y, tuple) and y):
+        return None
+    alts = list(y[1]) if y[0] == "phi" else [y]
+    flat = []
+    for a in alts:
+        for _ in range(4):
+            if isinstance(a, tuple) and a and a[0] in ("ref", "deref"):
+                a = a[1]
+        flat.append(a)
+    if not flat or not all(isinstance(a, tuple) and a and a[0] == "agg" and len(a) > 3 and a[2] for a in flat):
+        return None
+    mine = [a for a in flat if a[2] == variant]
+    idx = int(s[2])
+    if len(mine) == 1 and idx < len(mine[0][3]):
+        return mine[0][3][idx]
+    return None
 
 
 def sym_walk(s):
